@@ -155,13 +155,13 @@ func qaC20accounting(c *Ctx, aof string) {
 		"store `"+DescribeInstr(st)+"` has shape "+QaStoreShape(st))
 	// consume argument is end - outmaxsent (old value)
 	okArg := false
-	if b, ok := QaStripConv(con.Call.Args[1]).(*ssa.BinOp); ok && b.Op == token.SUB && QaStripConv(b.X) == end {
+	if b, ok := QaStripConv(BaselineArgs(&con.Call)[1]).(*ssa.BinOp); ok && b.Op == token.SUB && QaStripConv(b.X) == end {
 		if u, ok := QaStripConv(b.Y).(*ssa.UnOp); ok && u.Op == token.MUL && Term(u) == "$r.outmaxsent" {
 			okArg = true
 		}
 	}
-	c.Check(okArg, "same-value", name("consume(n) with n = new outmaxsent - old outmaxsent"), con.Pos(), Term(con.Call.Args[1]),
-		"consume is called with `"+Term(con.Call.Args[1])+"`, not the amount by which outmaxsent grows")
+	c.Check(okArg, "same-value", name("consume(n) with n = new outmaxsent - old outmaxsent"), con.Pos(), Term(BaselineArgs(&con.Call)[1]),
+		"consume is called with `"+Term(BaselineArgs(&con.Call)[1])+"`, not the amount by which outmaxsent grows")
 	c.Check(con.Block() == st.Block() && qaPosBefore(con, st), "paired", name("consume precedes the outmaxsent store in the same block"), con.Pos(), "",
 		"consume and the outmaxsent store are not executed together (or consume reads the already updated outmaxsent)")
 	// end = off + len(data returned by appendStreamFrame)
@@ -169,7 +169,7 @@ func qaC20accounting(c *Ctx, aof string) {
 	if b, ok := end.(*ssa.BinOp); ok && b.Op == token.ADD {
 		for i, side := range []ssa.Value{b.X, b.Y} {
 			other := []ssa.Value{b.Y, b.X}[i]
-			if QaStripConv(side) == QaStripConv(asf.Call.Args[2]) && qaIsLenOfResult(QaStripConv(other), asf) {
+			if QaStripConv(side) == QaStripConv(BaselineArgs(&asf.Call)[2]) && qaIsLenOfResult(QaStripConv(other), asf) {
 				okEnd = true
 			}
 		}
@@ -231,10 +231,10 @@ func qaIsLenOfResult(v ssa.Value, call *ssa.Call) bool {
 		return false
 	}
 	b, ok := c.Call.Value.(*ssa.Builtin)
-	if !ok || b.Name() != "len" || len(c.Call.Args) != 1 {
+	if !ok || b.Name() != "len" || len(BaselineArgs(&c.Call)) != 1 {
 		return false
 	}
-	ex, ok := c.Call.Args[0].(*ssa.Extract)
+	ex, ok := BaselineArgs(&c.Call)[0].(*ssa.Extract)
 	return ok && ex.Tuple == ssa.Value(call) && ex.Index == 0
 }
 
@@ -255,8 +255,8 @@ func qaC20framedValueStored(c *Ctx, fnName, appender string, idx int, field stri
 	}
 	call := calls[0].(*ssa.Call)
 	st := stores[0].(*ssa.Store)
-	if QaStripConv(call.Call.Args[idx]) != QaStripConv(st.Val) {
-		c.Fail("same-value", construct, st.Pos(), "stored `"+Term(st.Val)+"` but framed `"+Term(call.Call.Args[idx])+"`")
+	if QaStripConv(BaselineArgs(&call.Call)[idx]) != QaStripConv(st.Val) {
+		c.Fail("same-value", construct, st.Pos(), "stored `"+Term(st.Val)+"` but framed `"+Term(BaselineArgs(&call.Call)[idx])+"`")
 		return
 	}
 	ok := false
